@@ -47,6 +47,7 @@ import (
 	"os"
 	"path/filepath"
 	"regexp"
+	"runtime/pprof"
 	"sort"
 	"strings"
 	"sync"
@@ -657,6 +658,8 @@ func observe(e *env) *obs {
 		}
 		o.Files[f.Role] = x
 	}
+	tA := time.Now()
+	defer func() { tObs += time.Since(tA) }()
 	h := api.NewQueryHandler(duck, hot, zerolog.Nop(), 0, 0)
 	h.SetTieringManager(mgr)
 	expr := h.VerifC12ExprForMeasurement(ctx, dbName, meas, "SELECT * FROM "+meas, "FROM")
@@ -704,7 +707,10 @@ func observe(e *env) *obs {
 	for i := range dst {
 		dst[i] = &vals[i]
 	}
-	if err := duck.DB().QueryRow(tr).Scan(dst...); err != nil {
+	tB := time.Now()
+	err = duck.DB().QueryRow(tr).Scan(dst...)
+	tRow += time.Since(tB)
+	if err != nil {
 		o.QueryErr = strings.ReplaceAll(err.Error(), e.dir, "")
 		return o
 	}
@@ -963,8 +969,14 @@ func runCase(run *ev.Run, l layout, kind string, plans []*plan, restartAfterErro
 	for _, s := range res.states {
 		st.states[s] = true
 	}
+	if traceF != nil {
+		fmt.Fprintf(traceF, "%s | %s | %s | reached=%v bad=%d | %s\n", l, kind, strings.Join(res.faults, " ; "), res.reached, res.bad, strings.Join(res.states, " => "))
+	}
 	return res
 }
+
+var traceF *os.File
+var tObs, tRow time.Duration
 
 var goldenLabels = map[*cycleLog][]string{}
 
@@ -1082,6 +1094,15 @@ func main() {
 	}
 	must(err, "database.New")
 	t0 := time.Now()
+	if tf := os.Getenv("VERIF_C12_TRACE"); tf != "" {
+		traceF, _ = os.Create(fmt.Sprintf("%s.%d", tf, shard))
+		defer traceF.Close()
+	}
+	if pf := os.Getenv("VERIF_C12_PROF"); pf != "" {
+		f, _ := os.Create(pf)
+		pprof.StartCPUProfile(f)
+		defer pprof.StopCPUProfile()
+	}
 	makeTemplates()
 
 	var layouts []layout
@@ -1162,8 +1183,9 @@ func main() {
 		}
 	}
 	if os.Getenv("VERIF_C12_TIMING") != "" {
-		fmt.Fprintf(os.Stderr, "shard %d: %d cases in %v\n", shard, st.cases, time.Since(t0))
+		fmt.Fprintf(os.Stderr, "shard %d: %d cases in %v (query part of observe %v, of which row query %v)\n", shard, st.cases, time.Since(t0), tObs, tRow)
 	}
+	pprof.StopCPUProfile()
 	duck.Close()
 	counters := map[string]int64{"cases": st.cases, "reached": st.reached, "bad": st.bad, "crash_states": st.crashStates,
 		"faulty_cycles": st.faultyCycles, "transient_double": st.transientDouble, "recovery_removed_hot_copy": st.reconcile}
